@@ -281,7 +281,7 @@ def c15(ctx, rep):
     rep.ob("C15.default-none", "FileAnonymizer.__init__", all(first.get(f) == ("const", None) for f in option_of), "every stage field is first set to None: %s" % {k: show(v) for k, v in first.items()}, W(f_fa))
     # 2/3. constructor arguments: salt field + feature-local roots
     allowed_roots = {
-        "SensitiveWordAnonymizer": {"sensitive_words", "reserved_words"},
+        "SensitiveWordAnonymizer": {"sensitive_words", "reserved_words", "self.reserved_words"},
         "IpAnonymizer": {"preserve_prefixes", "preserve_networks", "preserve_suffix_v4"},
         "IpV6Anonymizer": {"preserve_suffix_v6"},
         "AsNumberAnonymizer": {"as_numbers"},
